@@ -1,7 +1,7 @@
 (* Property C09: loading a database yields exactly the records written in the file. *)
 From Coq Require Import String.
 From PV Require Import Model.Prelude Model.Bits Model.Sig Model.Text Model.SigParse Model.DbParse Model.Dump
-  Model.Matcher Spec.C01 Spec.C09 Proofs.DbParseP Proofs.DumpP Proofs.LabelsP Proofs.SigTextP.
+  Model.Matcher Spec.C01 Spec.C09 Proofs.DbParseP Proofs.DumpP Proofs.LabelsP Proofs.SigTextP Proofs.HttpSigP.
 
 (* After a successful load, for each of the five sections the records are, in file order, exactly
    the sig lines the scanner attributes to that section: same line number, most recent label (with
@@ -27,6 +27,12 @@ Print Assumptions C09_tcp_sig_ranges.
 Theorem C09_sig_roundtrip : forall s, printable s -> parse_tcp_sig (print_tcp_sig s) = Ok s.
 Proof. exact parse_print_tcp_sig. Qed.
 Print Assumptions C09_sig_roundtrip.
+
+(* ... and the same for HTTP signatures: version, required/optional headers with or without bracketed values
+   (commas allowed inside the brackets), absent list, software *)
+Theorem C09_http_sig_roundtrip : forall h, printable_http h -> parse_http_sig (print_http_sig h) = Ok h.
+Proof. exact parse_print_http_sig. Qed.
+Print Assumptions C09_http_sig_roundtrip.
 
 (* option layouts and quirk lists denote what their text says (printer/parser round trip) *)
 Theorem C09_layout_text : forall l pad,
